@@ -2,10 +2,13 @@
 #![allow(clippy::all)]
 
 mod core;
+mod fake_junos;
+mod junos_model;
 mod mem;
 mod ops;
 mod props;
 mod replygen;
+mod running;
 mod sched;
 mod sess;
 mod strings;
